@@ -415,6 +415,112 @@ theorem retry_no_blocking_after_cancel (cfg : Config) (atts : List Attempt) (bs 
     · omega
     · exact h
 
+/-! ### shutdown: the stop signal and the client timeout -/
+
+/-- the export context of a client whose Stop is wired to it (`cancelsExport`: the two trace clients) is done NO
+LATER than the stop signal, for EVERY client timeout (`timeout` only decides whether there is a deadline event; no
+stop-related clause reads it), every caller context and every deadline. -/
+theorem stop_signal_reaches_export_ctx_any_timeout (timeout : Dur) (caller deadline : Option (Nat × Dur))
+    (e : Nat × Dur) :
+    ∃ e', exportCtxDone .cancelsExport timeout caller (some e) deadline = some e' ∧ evLe e' e = true :=
+  exportCtxDone_le_stop timeout caller deadline e
+
+/-- after Stop's signal (`c ≥ 0` ns into wait `j`) a pending export ends with the stop/context error regardless of
+the configured timeout: if every wait from `j` on is a real one (longer than the time to the signal — e.g. a
+back-off), then wait `j` is the last, it is cut short (`cancelled`: the error wraps the context error), and no
+attempt is made after it. -/
+theorem stop_cancels_pending_export_any_timeout (cfg : Config) (timeout : Dur) (atts : List Attempt)
+    (bs : List Dur) (caller deadline : Option (Nat × Dur)) (j : Nat) (c : Dur)
+    (he : cfg.enabled = true) (hc : 0 ≤ c)
+    (hreal : ∀ i w, (exportRun cfg .cancelsExport timeout atts bs caller (some (j, c)) deadline).waits[i]? = some w →
+      j ≤ i → (if i = j then c else 0) < w) :
+    let r := exportRun cfg .cancelsExport timeout atts bs caller (some (j, c)) deadline
+    r.waits.length ≤ j + 1 ∧ r.attempts ≤ j + 1 ∧ (r.waits.length = j + 1 → r.result = .cancelled) := by
+  obtain ⟨⟨j', c'⟩, hca, hle⟩ := exportCtxDone_le_stop timeout caller deadline (j, c)
+  rw [evLe_iff] at hle
+  simp only at hle
+  simp only [exportRun, hca] at hreal ⊢
+  have hcount := retry_wait_count cfg atts bs (some (j', c')) he
+  have hnb := fun i w h1 h2 h3 => retry_no_blocking_after_cancel cfg atts bs j' c' he i w h1 h2 h3
+  generalize requestLoop cfg atts bs (some (j', c')) = r at *
+  -- wait `j` cannot have run to its end
+  have hj : ∀ w, r.waits[j]? = some w → (r.result ≠ .cancelled ∨ j + 1 < r.waits.length) → False := by
+    intro w hw hd
+    have h1 := hnb j w hw (by omega) hd
+    have h2 := hreal j w hw (Nat.le_refl j)
+    simp only [if_true] at h2
+    split at h1 <;> omega
+  have hlen : r.waits.length ≤ j + 1 := by
+    by_cases h : j + 1 < r.waits.length
+    · have hw : r.waits[j]? = some (r.waits[j]'(by omega)) := List.getElem?_eq_getElem (by omega)
+      exact absurd (hj _ hw (Or.inr h)) id
+    · omega
+  have hcanc : r.waits.length = j + 1 → r.result = .cancelled := by
+    intro hl
+    by_cases hr : r.result = .cancelled
+    · exact hr
+    · have hw : r.waits[j]? = some (r.waits[j]'(by omega)) := List.getElem?_eq_getElem (by omega)
+      exact absurd (hj _ hw (Or.inl hr)) id
+  refine ⟨hlen, ?_, hcanc⟩
+  simp only [waitCountOK] at hcount
+  cases hr : r.result with
+  | cancelled => simp [hr] at hcount; omega
+  | pending =>
+    simp [hr] at hcount
+    by_cases hl : r.waits.length = j + 1
+    · have := hcanc hl; rw [hr] at this; cases this
+    · omega
+  | returned o =>
+    simp [hr] at hcount
+    by_cases hl : r.waits.length = j + 1
+    · have := hcanc hl; rw [hr] at this; cases this
+    · omega
+  | maxElapsed =>
+    simp [hr] at hcount
+    by_cases hl : r.waits.length = j + 1
+    · have := hcanc hl; rw [hr] at this; cases this
+    · omega
+  | wouldElapse =>
+    simp [hr] at hcount
+    by_cases hl : r.waits.length = j + 1
+    · have := hcanc hl; rw [hr] at this; cases this
+    · omega
+
+/-- the `shut` scenario on the model: for the wiring of the two trace clients the clause holds for every timeout
+configuration, gRPC or HTTP. -/
+theorem shutdown_ok_when_stop_cancels (grpc : Bool) (timeout : Dur) :
+    shutdownOK (shutdownSeen .cancelsExport grpc timeout) = true := by
+  obtain ⟨⟨j', c'⟩, hca, hle⟩ := exportCtxDone_le_stop timeout none
+    (if grpc then some (0, timeout) else none) (0, 105000000)
+  rw [evLe_iff] at hle
+  simp only at hle
+  have hj : j' = 0 := by omega
+  subst hj
+  simp only [shutdownOK, shutdownSeen, hca]
+  have : c' ≤ 2000000000 := by omega
+  simp [this]
+
+/-- candidate finding (exporter-level Shutdown of otlpmetrichttp, otlpmetricgrpc, otlploggrpc, otlploghttp): the stop
+signal never reaches the export context, so with no client timeout and `MaxElapsedTime = 0` an export in back-off is
+not ended by Shutdown at all — it goes on through the whole script — and the `shut` clause fails. -/
+theorem shutdown_does_not_interrupt_witness :
+    let cfg : Config := { enabled := true, initial := 3600000000000, maxInterval := 3600000000000, maxElapsed := 0 }
+    let atts : List Attempt := [⟨.retryable 0, 1, 1⟩, ⟨.retryable 0, 2, 2⟩, ⟨.retryable 0, 3, 3⟩]
+    exportCtxDone .waitsForExport 0 none (some (0, 0)) none = none ∧
+    exportCtxDone .detaches 0 none (some (0, 0)) none = none ∧
+    (exportRun cfg .waitsForExport 0 atts [1800000000000, 1800000000000, 1800000000000] none (some (0, 0)) none).result
+      = .pending ∧
+    (exportRun cfg .cancelsExport 0 atts [1800000000000, 1800000000000, 1800000000000] none (some (0, 0)) none)
+      = { result := .cancelled, attempts := 1, waits := [1800000000000] } ∧
+    shutdownOK (shutdownSeen .waitsForExport true 0) = false ∧
+    shutdownOK (shutdownSeen .detaches false 10000000000) = false ∧
+    FShut_applies .waitsForExport = true ∧ FShut_applies .detaches = true ∧ FShut_applies .cancelsExport = false := by
+  decide
+
+/-- the full clause for all six exporters, refuted on the current code by `shutdown_does_not_interrupt_witness` -/
+def shutdown_ends_pending_export_full_statement : Prop :=
+  ∀ (w : StopWiring) (grpc : Bool) (timeout : Dur), shutdownOK (shutdownSeen w grpc timeout) = true
+
 /-! ### non-vacuity: the hypotheses are satisfiable and the conclusions are about non-trivial runs -/
 
 /-- three attempts (503 with throttle, Unavailable-like retry, then success), two waits ≥ throttle -/
